@@ -21,11 +21,15 @@ theorem C12_Word8_sub (a b : Int) (ha : inRange (.word 8) a) (hb : inRange (.wor
 
 theorem C12_Word8_mul (a b : Int) (ha : inRange (.word 8) a) (hb : inRange (.word 8) b) :
     Word8Value.Mul a b = specWord 8 .mul a b := by
-  unfold Word8Value.Mul; num_arith
+  unfold Word8Value.Mul; num_mul a b (255) (0)
 
--- NOT YET PROVED: C12_Word8_div
+theorem C12_Word8_div (a b : Int) (ha : inRange (.word 8) a) (hb : inRange (.word 8) b) :
+    Word8Value.Div a b = specWord 8 .div a b := by
+  unfold Word8Value.Div; num_div a b
 
--- NOT YET PROVED: C12_Word8_mod
+theorem C12_Word8_mod (a b : Int) (ha : inRange (.word 8) a) (hb : inRange (.word 8) b) :
+    Word8Value.Mod a b = specWord 8 .mod a b := by
+  unfold Word8Value.Mod; num_mod a b
 
 /-! ### Word16 -/
 
@@ -39,11 +43,15 @@ theorem C12_Word16_sub (a b : Int) (ha : inRange (.word 16) a) (hb : inRange (.w
 
 theorem C12_Word16_mul (a b : Int) (ha : inRange (.word 16) a) (hb : inRange (.word 16) b) :
     Word16Value.Mul a b = specWord 16 .mul a b := by
-  unfold Word16Value.Mul; num_arith
+  unfold Word16Value.Mul; num_mul a b (65535) (0)
 
--- NOT YET PROVED: C12_Word16_div
+theorem C12_Word16_div (a b : Int) (ha : inRange (.word 16) a) (hb : inRange (.word 16) b) :
+    Word16Value.Div a b = specWord 16 .div a b := by
+  unfold Word16Value.Div; num_div a b
 
--- NOT YET PROVED: C12_Word16_mod
+theorem C12_Word16_mod (a b : Int) (ha : inRange (.word 16) a) (hb : inRange (.word 16) b) :
+    Word16Value.Mod a b = specWord 16 .mod a b := by
+  unfold Word16Value.Mod; num_mod a b
 
 /-! ### Word32 -/
 
@@ -57,11 +65,15 @@ theorem C12_Word32_sub (a b : Int) (ha : inRange (.word 32) a) (hb : inRange (.w
 
 theorem C12_Word32_mul (a b : Int) (ha : inRange (.word 32) a) (hb : inRange (.word 32) b) :
     Word32Value.Mul a b = specWord 32 .mul a b := by
-  unfold Word32Value.Mul; num_arith
+  unfold Word32Value.Mul; num_mul a b (4294967295) (0)
 
--- NOT YET PROVED: C12_Word32_div
+theorem C12_Word32_div (a b : Int) (ha : inRange (.word 32) a) (hb : inRange (.word 32) b) :
+    Word32Value.Div a b = specWord 32 .div a b := by
+  unfold Word32Value.Div; num_div a b
 
--- NOT YET PROVED: C12_Word32_mod
+theorem C12_Word32_mod (a b : Int) (ha : inRange (.word 32) a) (hb : inRange (.word 32) b) :
+    Word32Value.Mod a b = specWord 32 .mod a b := by
+  unfold Word32Value.Mod; num_mod a b
 
 /-! ### Word64 -/
 
@@ -75,11 +87,15 @@ theorem C12_Word64_sub (a b : Int) (ha : inRange (.word 64) a) (hb : inRange (.w
 
 theorem C12_Word64_mul (a b : Int) (ha : inRange (.word 64) a) (hb : inRange (.word 64) b) :
     Word64Value.Mul a b = specWord 64 .mul a b := by
-  unfold Word64Value.Mul; num_arith
+  unfold Word64Value.Mul; num_mul a b (18446744073709551615) (0)
 
--- NOT YET PROVED: C12_Word64_div
+theorem C12_Word64_div (a b : Int) (ha : inRange (.word 64) a) (hb : inRange (.word 64) b) :
+    Word64Value.Div a b = specWord 64 .div a b := by
+  unfold Word64Value.Div; num_div a b
 
--- NOT YET PROVED: C12_Word64_mod
+theorem C12_Word64_mod (a b : Int) (ha : inRange (.word 64) a) (hb : inRange (.word 64) b) :
+    Word64Value.Mod a b = specWord 64 .mod a b := by
+  unfold Word64Value.Mod; num_mod a b
 
 /-! ### Word128 -/
 
@@ -91,11 +107,17 @@ theorem C12_Word128_sub (a b : Int) (ha : inRange (.word 128) a) (hb : inRange (
     Word128Value.Minus a b = specWord 128 .sub a b := by
   unfold Word128Value.Minus; num_arith
 
--- NOT YET PROVED: C12_Word128_mul
+theorem C12_Word128_mul (a b : Int) (ha : inRange (.word 128) a) (hb : inRange (.word 128) b) :
+    Word128Value.Mul a b = specWord 128 .mul a b := by
+  unfold Word128Value.Mul; num_mul a b (340282366920938463463374607431768211455) (0)
 
--- NOT YET PROVED: C12_Word128_div
+theorem C12_Word128_div (a b : Int) (ha : inRange (.word 128) a) (hb : inRange (.word 128) b) :
+    Word128Value.Div a b = specWord 128 .div a b := by
+  unfold Word128Value.Div; num_div a b
 
--- NOT YET PROVED: C12_Word128_mod
+theorem C12_Word128_mod (a b : Int) (ha : inRange (.word 128) a) (hb : inRange (.word 128) b) :
+    Word128Value.Mod a b = specWord 128 .mod a b := by
+  unfold Word128Value.Mod; num_mod a b
 
 /-! ### Word256 -/
 
@@ -107,11 +129,17 @@ theorem C12_Word256_sub (a b : Int) (ha : inRange (.word 256) a) (hb : inRange (
     Word256Value.Minus a b = specWord 256 .sub a b := by
   unfold Word256Value.Minus; num_arith
 
--- NOT YET PROVED: C12_Word256_mul
+theorem C12_Word256_mul (a b : Int) (ha : inRange (.word 256) a) (hb : inRange (.word 256) b) :
+    Word256Value.Mul a b = specWord 256 .mul a b := by
+  unfold Word256Value.Mul; num_mul a b (115792089237316195423570985008687907853269984665640564039457584007913129639935) (0)
 
--- NOT YET PROVED: C12_Word256_div
+theorem C12_Word256_div (a b : Int) (ha : inRange (.word 256) a) (hb : inRange (.word 256) b) :
+    Word256Value.Div a b = specWord 256 .div a b := by
+  unfold Word256Value.Div; num_div a b
 
--- NOT YET PROVED: C12_Word256_mod
+theorem C12_Word256_mod (a b : Int) (ha : inRange (.word 256) a) (hb : inRange (.word 256) b) :
+    Word256Value.Mod a b = specWord 256 .mod a b := by
+  unfold Word256Value.Mod; num_mod a b
 
 /-- the spec never fails with overflow / underflow: a Word operation fails only by division by zero -/
 theorem C12_only_divZero (n : Nat) (op : Op) (a b : Int) (e : NumErr) (h : specWord n op a b = .error e) :
